@@ -28,7 +28,9 @@ Register r08("C08", [](Tier t) {
 });
 Register r20("C20", [](Tier t) {
     // h: callable kind (fn pointer | small closure | large closure | Runnable), #lvalue args, via constructor, #isFinished polls
+    // h[5]: number of thread creations made to fail with EAGAIN before one succeeds (fault injection; the caller retries start())
     return rc::gen::weightedOneOf<Case>({{4, genCase("C20", genHeader({{0, 3}, {0, 2}, {0, 1}, {0, 3}, {0, 0}}), rc::gen::just(std::vector<Op>{}), genSched(t == THOROUGH ? 80 : 40))},
+                                         {2, genCase("C20", genHeader({{0, 3}, {0, 2}, {0, 1}, {0, 3}, {0, 0}, {1, 3}}), rc::gen::just(std::vector<Op>{}), genSched(t == THOROUGH ? 80 : 40))},
                                          {1, genCase("C20", genHeader({{0, 3}, {0, 2}, {0, 1}, {0, 3}, {1, 1}}), rc::gen::just(std::vector<Op>{}), genSchedPCT())}});
 });
 
